@@ -3,7 +3,7 @@
    `decompress` stands for the negotiated decompressor run to completion (an oracle: C20's domain);
    every theorem holds for every such function. *)
 From Coq Require Import Lia.
-From V Require Import C14_Spec C14_Proofs C14_Alias.
+From V Require Import C14_Spec C14_Proofs C14_Alias C14_HttpProofs.
 Open Scope N_scope.
 
 (* Chunking never matters (raw dataTracer + builder): for EVERY configuration, EVERY list of chunks
@@ -155,6 +155,51 @@ Theorem copying_is_value_semantics : forall decompress c mem calls,
 Proof. exact copying_spec_proof. Qed.
 Print Assumptions copying_is_value_semantics.
 
+(* Headers and trailers.  http.Header is a map, i.e. a reference: C14_Http keeps the maps in a heap and
+   requests / responses hold addresses, so that "the tracer stored its synthesised Content-Length in the
+   very map the application is handed" is expressible (seeded change C14-16 does exactly that).
+
+   Server side (TracingHandler): for EVERY heap, EVERY request (method, ContentLength incl. -1 and 0,
+   any headers) and EVERY body script, the wrapped handler is given a request with the same method,
+   the same ContentLength and a header map with the same CONTENTS as the one that came in; reading its
+   body returns the inner bytes / counts / errors; no map that existed before the call is written to
+   (the caller's request is untouched); the trace reports the headers with the synthesised
+   Content-Length in a map of its own - distinct from the handler's and from every earlier one, so
+   nothing the handler later does to its headers shows in the trace and vice versa. *)
+Theorem handler_sees_same_request : forall decompress c s body_ops hp q,
+  (q_hdr q < length hp)%nat ->
+  let '(hp', q', th) := tracing_handler_entry true hp q in
+  req_view hp' q' = req_view hp q /\
+  snd (reader_run decompress c s body_ops) = map rres_of body_ops /\
+  (forall a, (a < length hp)%nat -> h_at hp' a = h_at hp a) /\
+  h_at hp' th = trace_headers (h_at hp (q_hdr q)) (q_clen q) /\
+  q_hdr q' <> th /\ (length hp <= th)%nat /\ (length hp <= q_hdr q')%nat.
+Proof. exact handler_sees_same_request_proof. Qed.
+Print Assumptions handler_sees_same_request.
+
+(* Client side (TracingRoundTripper), for EVERY inner transport that answers by what it is asked (method,
+   length, header contents - not by where the caller keeps its maps) and writes only to the headers of
+   the request it is given and to maps it allocates: the application gets the status, ContentLength,
+   header CONTENTS and trailer contents it would have got from the transport directly; the transport
+   is asked the same request; the response handed back is the transport's own record (same Header and
+   Trailer maps: trailers the transport stores there when the body reaches EOF are seen as without
+   tracing; the body itself is reader_transparent); the caller's request headers are untouched even
+   when the transport adds to the ones it was given. *)
+Theorem client_sees_same_response : forall transport,
+  (forall hp1 q1 hp2 q2, req_view hp1 q1 = req_view hp2 q2 ->
+     resp_view (fst (transport hp1 q1)) (snd (transport hp1 q1)) =
+     resp_view (fst (transport hp2 q2)) (snd (transport hp2 q2))) ->
+  (forall hp q a, (a < length hp)%nat -> a <> q_hdr q -> h_at (fst (transport hp q)) a = h_at hp a) ->
+  forall hp q, (q_hdr q < length hp)%nat ->
+  let '(hpT, qT, pT) := tracing_round_trip transport hp q in
+  let hp1 := hp ++ [h_at hp (q_hdr q)] in
+  resp_view hpT pT = resp_view (fst (transport hp q)) (snd (transport hp q)) /\
+  req_view hp1 qT = req_view hp q /\
+  transport hp1 qT = (hpT, pT) /\
+  h_at hpT (q_hdr q) = h_at hp (q_hdr q).
+Proof. exact client_sees_same_response_proof. Qed.
+Print Assumptions client_sees_same_response.
+
 (* ---- non-vacuity: the hypotheses are inhabited, both sides of the flag rule occur ---- *)
 Definition toy_dec (b : bytes) : option bytes := match b with 90 :: r => Some r | _ => None end.
 Definition resp : cfg := mk_cfg false true true.
@@ -260,3 +305,35 @@ Example alias_variant_unnoticed_with_fresh_buffers :
   fst r = (expected_events Some reqc demo_body ENil, demo_chunks) /\
   snd r <> mem_after (repeat 238 48) (spread_calls 8 3 demo_chunks).
 Proof. split; vm_compute; [reflexivity|intro H; discriminate H]. Qed.
+
+(* ---- headers: a Connect GET (no body: ContentLength 0, no Content-Length header) ---- *)
+Definition get_hdrs : hmap := [(bs "Accept-Encoding", [bs "gzip"]); (bs "X-Test-Case-Name", [bs "t"])].
+Definition get_req : hreq := mk_hreq (bs "GET") 0 0.
+Example ex_handler_get :
+  let '(hp', q', th) := tracing_handler_entry true [get_hdrs] get_req in
+  req_view hp' q' = (bs "GET", 0%Z, get_hdrs) /\ h_at hp' 0 = get_hdrs /\
+  h_at hp' th = [(bs "Accept-Encoding", [bs "gzip"]); (CL, [bs "0"]); (bs "X-Test-Case-Name", [bs "t"])].
+Proof. vm_compute. repeat split. Qed.
+(* the variant that does not clone before synthesising (seeded C14-16): the handler IS given a
+   Content-Length header that was never on the wire, and the caller's map is altered too *)
+Example handler_variant_refuted :
+  let '(hp', q', th) := tracing_handler_entry false [get_hdrs] get_req in
+  req_view hp' q' <> req_view [get_hdrs] get_req /\ h_get1 CL (h_at hp' (q_hdr q')) = bs "0" /\ h_at hp' 0 <> get_hdrs.
+Proof. vm_compute. repeat split; intro H; discriminate H. Qed.
+(* unknown length (chunked) and a declared length: nothing is synthesised *)
+Example ex_trace_headers :
+  trace_headers get_hdrs (-1) = get_hdrs /\
+  trace_headers [(CL, [bs "12"])] 12 = [(CL, [bs "12"])] /\
+  trace_headers [] 1205 = [(CL, [bs "1205"])].
+Proof. vm_compute. repeat split. Qed.
+(* the scripted transport of the differential run satisfies both hypotheses of client_sees_same_response *)
+Example ex_transport_hypotheses : forall st clen h t,
+  (forall hp1 q1 hp2 q2, req_view hp1 q1 = req_view hp2 q2 ->
+     resp_view (fst (scripted_transport st clen h t hp1 q1)) (snd (scripted_transport st clen h t hp1 q1)) =
+     resp_view (fst (scripted_transport st clen h t hp2 q2)) (snd (scripted_transport st clen h t hp2 q2))) /\
+  (forall hp q a, (a < length hp)%nat -> a <> q_hdr q -> h_at (fst (scripted_transport st clen h t hp q)) a = h_at hp a).
+Proof.
+  intros. split; intros.
+  - apply scripted_by_content.
+  - apply scripted_frame. assumption.
+Qed.
